@@ -72,14 +72,30 @@ class RecAction(BoboAction):
 
 
 class FakeSock:
+    # how much one read returns at most, rotating over the messages of a run: the network hands a message over in pieces
+    # (whole, MTU-sized, small), whatever the receiver asks for
+    CAPS = (1 << 20, 64, 1448, 17, 2048, 100)
+    count = 0
+
     def __init__(self, data):
         self.data = data
         self.timeout = None
+        FakeSock.count += 1
+        self.cap = FakeSock.CAPS[FakeSock.count % len(FakeSock.CAPS)]
 
     def settimeout(self, t):
         self.timeout = t
 
     def recv(self, n):
+        if not self.data:
+            # everything the sender wrote has been read and the sender is done: a blocking socket with a receive timeout
+            # now times out (returning b'' for ever would let a receiver that missed the end of the message spin)
+            self.silent = getattr(self, 'silent', 0) + 1
+            if self.timeout is not None or self.silent > 3:
+                import socket as _socket
+                raise _socket.timeout('timed out')
+            return b''
+        n = min(n, self.cap)
         out, self.data = self.data[:n], self.data[n:]
         return out
 
@@ -396,6 +412,7 @@ class Cluster:
     def __init__(self, names, phens, cache=1000, periods=None, with_action=True, clock0=1000, via_setup=False):
         self.names, self.phens, self.cache, self.periods = list(names), phens, cache, periods
         self.via_setup = via_setup
+        FakeSock.count = 0            # (the read sizes depend on the scenario alone: a replay sees the same ones)
         self.clock = Clock(clock0)
         self.net = Net()
         self.devices = [(n, 'k' + n) for n in names] if len(names) > 1 else []
